@@ -1,5 +1,6 @@
 import Zrnt.Beacon.Impl.Epoch
 import Proofs.Lemmas.C02Registry
+import Proofs.Lemmas.C02Just
 import Proofs.Lemmas.C02Altair
 import Proofs.Lemmas.C02Phase0
 import Proofs.Lemmas.C02WF
@@ -7,6 +8,8 @@ import Zrnt.Beacon.Impl.Pipeline
 import Proofs.Lemmas.C02Slots
 import Proofs.Lemmas.C02Inv
 import Proofs.Lemmas.C02Link
+import Proofs.Lemmas.C02Link2
+import Proofs.Lemmas.C02Genesis
 import Zrnt.Beacon.Impl.Final
 import Proofs.Lemmas.C02Committee
 /-!
@@ -155,16 +158,8 @@ all balances and all checkpoints (case split over the 16 patterns and the two su
 theorem justification_eq (previousEpoch currentEpoch : Nat) (f : FFG) (total prevT curT : Nat)
     (prevRoot curRoot : Bytes) (hbits : f.justification_bits.length = 4) :
     Impl.processEpochJustification previousEpoch currentEpoch f total prevT curT prevRoot curRoot =
-      weigh_justification_and_finalization_pure previousEpoch currentEpoch f total prevT curT prevRoot curRoot := by
-  rcases f with ⟨bits, pj, cj, fin⟩
-  match bits, hbits with
-  | [a, b, c, d], _ =>
-    by_cases h1 : prevT * 3 ≥ total * 2 <;> by_cases h2 : curT * 3 ≥ total * 2 <;>
-    cases a <;> cases b <;> cases c <;> cases d <;>
-    simp [Impl.processEpochJustification, weigh_justification_and_finalization_pure, h1, h2,
-      Impl.bitsToByte, Impl.byteToBits, Impl.nextEpochBits, Impl.isJustified, JUSTIFICATION_BITS_LENGTH, Id.run,
-      Lemmas.testBit_eq, pure] <;>
-    (repeat' split) <;> simp_all
+      weigh_justification_and_finalization_pure previousEpoch currentEpoch f total prevT curT prevRoot curRoot :=
+  Lemmas.justification_eq' previousEpoch currentEpoch f total prevT curT prevRoot curRoot hbits
 
 /-- non-vacuity: the state's `Bitvector[4]` -/
 example : ∃ f : FFG, f.justification_bits.length = 4 := ⟨⟨[true, false, true, false], default, default, default⟩, rfl⟩
@@ -984,12 +979,47 @@ theorem Q_genesis_like (cfg : Config) (s : State)
     obtain ⟨h1, h2, h3, h4⟩ := hreg v hv
     refine ⟨fun hs => ?_, ?_, ?_⟩
     · rw [h3] at hs; exact absurd hs (by decide)
-    · rw [h1, h2]; exact Nat.le_refl _
-    · rw [h1]; rcases h4 with h | h <;> rw [h] <;> simp [GENESIS_EPOCH, FAR_FUTURE_EPOCH]
+    · exact Nat.le_of_eq (h1.trans h2.symm)
+    · rcases h4 with h | h
+      · exact Nat.le_trans (Nat.le_of_eq h) (Nat.zero_le _)
+      · exact Nat.le_of_eq (h.trans h1.symm)
   · rw [Lemmas.qmax_eq, hex]
     have : Lemmas.farCount s.validators ≤ s.validators.length := by
       unfold Lemmas.farCount Lemmas.qcount; exact List.length_filter_le _ _
     simp only [List.foldl_nil]; omega
+
+/-- **`Q_genesis`: every genesis state satisfies the slot-loop invariant** — for EVERY deposit list (any number of
+deposits, top-ups, invalid signatures, with or without proof checking) on which C13's
+`initialize_beacon_state_from_eth1` (`Zrnt.Beacon.Genesis`, the specification transcription C13 runs three-way against
+`phase0.GenesisFromEth1`) succeeds. No field hypothesis is left: the registry facts are C13's `genesis_activation` and
+`genesis_effective_balance`, the rest (`Lemmas.genesis_frame`) is how `genesisBlank` fills the fields the deposits and
+activations never touch. Hence `processSlots_eq` / `processSlots_oracle_eq` apply to every chain started from a genesis
+state, for any number of slots below the (2^64-scale) budget. -/
+theorem Q_genesis (cfg : Config) (eth1_block_hash : Bytes) (eth1_timestamp : Nat) (deposits : List Genesis.DepositIn)
+    (checkProof : Bool) (s : State)
+    (h : Genesis.initialize_beacon_state_from_eth1 cfg eth1_block_hash eth1_timestamp deposits checkProof = .ok s) :
+    Lemmas.Q cfg (compute_activation_exit_epoch cfg (get_current_epoch cfg s) + s.validators.length) s.validators.length
+      (get_current_epoch cfg s) s := by
+  have hf := Lemmas.genesis_frame h
+  have ha := Zrnt.Proofs.C13.genesis_activation h
+  have hb := (Zrnt.Proofs.C13.genesis_effective_balance h).1
+  refine Q_genesis_like cfg s ?_ hb hf.bits hf.pj hf.cj hf.fin hf.fork hf.srlen hf.brlen
+  intro v hv
+  obtain ⟨h1, h2, h3, h4, h5⟩ := ha v hv
+  refine ⟨h3, h4, h5, ?_⟩
+  by_cases he : v.effective_balance = cfg.MAX_EFFECTIVE_BALANCE
+  · exact Or.inl (h1 he).2
+  · exact Or.inr (h2 he).2
+
+/-- non-vacuity of `Q_genesis`: genesis succeeds on the empty deposit list, and on a one-deposit list (a full deposit with
+a valid signature; `checkProof = false` spares the example a Merkle branch) where it creates one validator -/
+example : ∃ s, Genesis.initialize_beacon_state_from_eth1 default ZERO32 0 [] true = .ok s := ⟨_, rfl⟩
+
+def exampleDeposit : Genesis.DepositIn :=
+  { (default : Genesis.DepositIn) with amount := 32, pkOk := true, sigDecodes := true, verifyOk := true }
+
+example : ∃ s, Genesis.initialize_beacon_state_from_eth1 default ZERO32 0 [exampleDeposit] false = .ok s ∧
+    s.validators.length = 1 := ⟨_, rfl, rfl⟩
 
 /-- `processSlots_eq`: `common.ProcessSlots` — per slot `ProcessSlot`, zrnt's `ProcessEpoch` when the next slot starts a
 new epoch, the slot increment and `UpgradeMaybe` — equals the spec's `process_slots` with the fork upgrades, over ANY
@@ -1072,6 +1102,15 @@ theorem processSlots_eq (cfg : Config) (inps : List SlotInputs) (s : State) (C N
       rw [this]; exact hQ3
     · omega
 
+/-- genesis states start the chain: `processSlots_eq` from any genesis state -/
+theorem processSlots_from_genesis_eq (cfg : Config) (eth1_block_hash : Bytes) (eth1_timestamp : Nat)
+    (deposits : List Genesis.DepositIn) (checkProof : Bool) (s : State)
+    (h : Genesis.initialize_beacon_state_from_eth1 cfg eth1_block_hash eth1_timestamp deposits checkProof = .ok s)
+    (inps : List SlotInputs) (hspe : 0 < cfg.SLOTS_PER_EPOCH)
+    (hbound : compute_activation_exit_epoch cfg (get_current_epoch cfg s) + 2 * s.validators.length + inps.length + 1 < FAR_FUTURE_EPOCH) :
+    Impl.processSlots cfg inps s = process_slots_pure cfg inps s :=
+  processSlots_eq cfg inps s _ _ hspe (Q_genesis cfg eth1_block_hash eth1_timestamp deposits checkProof s h) (by omega)
+
 /-! ## The executable oracle and its pure form
 
 The theorems above are about the pure stage functions. `oracle_links`: whenever the executable specification function
@@ -1079,9 +1118,8 @@ The theorems above are about the pure stage functions. `oracle_links`: whenever 
 stage function's result — proved for `process_slot`, inactivity updates, rewards and penalties (phase0 and altair+;
 here the run-time comparison inside the monadic function is what the proof uses), registry updates, eth1-data reset,
 effective-balance updates, slashings reset, randao-mix reset, participation rotation, sync-committee updates and the
-four upgrades. NOT proved (still compared at run time only): justification (`justification_inputs`), `process_slashings`
-(its total goes through the checked `get_total_balance` fold), the historical accumulators, and the composition
-`process_epoch = ok s' → s' = process_epoch_pure …`. -/
+four upgrades; the rest — justification (`justification_inputs`), `process_slashings`, the historical accumulators, and the
+compositions `process_epoch`, `upgrade_maybe`, `process_slots` — in `oracle_links_composed` below. -/
 theorem oracle_links (cfg : Config) (agg : AggOracle) (roots : RootOracle) (s s' : State) :
     (process_slot cfg roots s = .ok s' → ∃ root, roots s.slot = some root ∧ s' = process_slot_pure cfg root s) ∧
     (s.fork ≠ .phase0 → process_inactivity_updates cfg s = .ok s' →
@@ -1116,6 +1154,67 @@ theorem oracle_links (cfg : Config) (agg : AggOracle) (roots : RootOracle) (s s'
    fun hf h => Lemmas.sync_stage_link cfg agg s s' h hf,
    Lemmas.upgrade_altair_link cfg agg s s',
    (Lemmas.upgrade_links cfg s s').1, (Lemmas.upgrade_links cfg s s').2.1, (Lemmas.upgrade_links cfg s s').2.2⟩
+
+/-- `oracle_links_composed`: the remaining links and the compositions. Whenever the executable specification function
+accepts, its result is the pure function's: `process_justification_and_finalization` (the balances it weighs are
+`total_active_balance_of` / `target_balances_*_pure`; on phase0 states after the first two epochs the attestation
+inputs are the state's pending attestations as `resolve_attestations` resolves them; the two roots are the block
+roots it looked up), `process_slashings` (its total is `total_active_balance_of`: `get_total_balance`'s checked fold is
+the sum), the historical accumulators (roots / summaries by fork), **`process_epoch` = `process_epoch_pure`** (every
+stage, the intermediate states threaded: the attestations the rewards step resolves on the state after justification
+are those of the start state), **`upgrade_maybe` = `upgrade_maybe_pure`** and **`process_slots` =
+`process_slots_pure`** over one `SlotInputs` per processed slot. With `processEpoch_eq` / `processSlots_eq` this makes
+every C02 theorem a statement about the oracle `zmodel c02` runs: `processEpoch_oracle_eq`, `processSlots_oracle_eq`.
+(Non-vacuity of the hypotheses `… = .ok s'`: these are the very functions the `c02` run executes; every `ok` line of its
+spec column — thousands per run, on all five forks — is a state on which they accept. The kernel cannot replay SHA-256
+and the well-founded loops by `rfl` (compiled evaluation is not an accepted proof here).) -/
+theorem oracle_links_composed (cfg : Config) (agg : AggOracle) (roots : RootOracle) (s s' : State) (target : Nat) :
+    (process_justification_and_finalization cfg s = .ok s' → ∃ prevAtts currAtts pr cr,
+      (s.fork = .phase0 → ¬ get_current_epoch cfg s ≤ GENESIS_EPOCH + 1 →
+        resolve_attestations cfg s (get_previous_epoch cfg s) = .ok prevAtts ∧
+        resolve_attestations cfg s (get_current_epoch cfg s) = .ok currAtts) ∧
+      s' = justification_stage cfg ⟨prevAtts, currAtts, pr, cr, none⟩ (get_previous_epoch cfg s) (get_current_epoch cfg s) s) ∧
+    (process_slashings cfg s = .ok s' → s' = slashings_stage cfg (get_current_epoch cfg s) s) ∧
+    ((if s.fork ≥ .capella then process_historical_summaries_update cfg s else process_historical_roots_update cfg s) = .ok s' →
+      s' = historical_stage cfg (get_current_epoch cfg s) s) ∧
+    (process_epoch cfg agg s = .ok s' → ∃ inp : EpochInputs,
+      (s.fork = .phase0 → get_current_epoch cfg s ≠ GENESIS_EPOCH →
+        resolve_attestations cfg s (get_previous_epoch cfg s) = .ok inp.prevAtts) ∧
+      (s.fork = .phase0 → ¬ get_current_epoch cfg s ≤ GENESIS_EPOCH + 1 →
+        resolve_attestations cfg s (get_current_epoch cfg s) = .ok inp.currAtts) ∧
+      s' = process_epoch_pure cfg inp s) ∧
+    (upgrade_maybe cfg agg s = .ok s' → ∃ inp, s' = upgrade_maybe_pure cfg inp s) ∧
+    (process_slots cfg agg roots s target = .ok s' →
+      ∃ inps : List SlotInputs, inps.length = target - s.slot ∧ s' = process_slots_pure cfg inps s) :=
+  ⟨Lemmas.justification_stage_link cfg s s', Lemmas.slashings_stage_link cfg s s', Lemmas.historical_stage_link cfg s s',
+   Lemmas.process_epoch_link cfg agg s s', Lemmas.upgrade_maybe_link cfg agg s s',
+   Lemmas.process_slots_link cfg agg roots s s' target⟩
+
+/-- **`processEpoch_eq` about the executable oracle**: whenever the specification's `process_epoch` accepts a state
+satisfying `EpochWF`, zrnt's `ProcessEpoch` pipeline (`Impl.processEpochPure`), fed the same oracle inputs, returns
+the state the specification returned. -/
+theorem processEpoch_oracle_eq (cfg : Config) (agg : AggOracle) (s s' : State) (h : EpochWF cfg s)
+    (hs : process_epoch cfg agg s = .ok s') :
+    ∃ inp : EpochInputs,
+      (s.fork = .phase0 → get_current_epoch cfg s ≠ GENESIS_EPOCH →
+        resolve_attestations cfg s (get_previous_epoch cfg s) = .ok inp.prevAtts) ∧
+      (s.fork = .phase0 → ¬ get_current_epoch cfg s ≤ GENESIS_EPOCH + 1 →
+        resolve_attestations cfg s (get_current_epoch cfg s) = .ok inp.currAtts) ∧
+      Impl.processEpochPure cfg inp s = s' := by
+  obtain ⟨inp, h1, h2, e⟩ := Lemmas.process_epoch_link cfg agg s s' hs
+  exact ⟨inp, h1, h2, by rw [e]; exact processEpoch_eq cfg inp s h⟩
+
+/-- **`processSlots_eq` about the executable oracle**: whenever the specification's `process_slots` (with the fork
+upgrades) accepts a start state satisfying the slot-loop invariant `Q`, zrnt's `ProcessSlots` (`Impl.processSlots`: per
+slot `ProcessSlot`, `ProcessEpoch` at epoch ends, the slot increment, `UpgradeMaybe`), fed the same oracle inputs,
+returns the state the specification returned — over any number of slots, epochs and forks. -/
+theorem processSlots_oracle_eq (cfg : Config) (agg : AggOracle) (roots : RootOracle) (s s' : State) (target C N : Nat)
+    (hspe : 0 < cfg.SLOTS_PER_EPOCH) (hQ : Lemmas.Q cfg C N (get_current_epoch cfg s) s)
+    (hbound : C + (target - s.slot) + N + 1 < FAR_FUTURE_EPOCH)
+    (hs : process_slots cfg agg roots s target = .ok s') :
+    ∃ inps : List SlotInputs, inps.length = target - s.slot ∧ Impl.processSlots cfg inps s = s' := by
+  obtain ⟨inps, hlen, e⟩ := Lemmas.process_slots_link cfg agg roots s s' target hs
+  exact ⟨inps, hlen, by rw [e]; exact processSlots_eq cfg inps s C N hspe hQ (by rw [hlen]; exact hbound)⟩
 
 /-- non-vacuity of `processSlots_eq`: a genesis-shaped one-validator state, two slots, `SLOTS_PER_EPOCH = 1`
 (so both slots end an epoch) -/
